@@ -160,7 +160,7 @@ func c13Comparators(c *Ctx, r *Report, prefix string) {
 	comps := comparatorsIn(c, sortingPkg)
 	for _, cm := range comps {
 		// (a) writes to captured / package-level variables
-		var written []string
+		var written, writtenTypes []string
 		ast.Inspect(cm.body, func(n ast.Node) bool {
 			var lhs []ast.Expr
 			switch t := n.(type) {
@@ -180,16 +180,20 @@ func c13Comparators(c *Ctx, r *Report, prefix string) {
 				}
 				if (o.Pkg() != nil && o.Parent() == o.Pkg().Scope()) || !within(cm.outer, o.Pos()) {
 					written = append(written, o.Name())
+					writtenTypes = append(writtenTypes, types.TypeString(o.Type(), func(p *types.Package) string { return p.Name() }))
 				}
 			}
 			return true
 		})
 		written = dedupStrings(written)
 		sort.Strings(written)
+		writtenTypes = dedupStrings(writtenTypes)
+		sort.Strings(writtenTypes)
 		if len(written) == 0 {
 			r.OK(rule, cm.where, "comparator", c.Pos(cm.pos), "effect: comparator assigns only its own locals")
 		} else {
-			r.Bad(rule, cm.where, "comparator writes "+strings.Join(written, ","), c.Pos(cm.pos),
+			// the construct names the kinds of state, not the variables: renaming them changes no key
+			r.Bad(rule, cm.where, "comparator writes captured "+strings.Join(writtenTypes, ","), c.Pos(cm.pos),
 				"comparator remembers state between comparisons (writes "+strings.Join(written, ", ")+"): which strategy it uses depends on the first pair the sort happens to compare, so the same key set can sort differently for different arrival orders")
 		}
 		// (b) mixed strategy
@@ -484,8 +488,21 @@ func mixedStrategy(cm comparator) [][2]string {
 			}
 			var ws []string
 			for w := range wr {
-				ws = append(ws, w)
+				// by kind of state, not by name (a rename changes no key)
+				tname := w
+				ast.Inspect(cm.outer, func(x ast.Node) bool {
+					if id, ok := x.(*ast.Ident); ok && id.Name == w {
+						if v, isVar := cm.info.Uses[id].(*types.Var); isVar {
+							tname = types.TypeString(v.Type(), func(p *types.Package) string { return p.Name() })
+						} else if v, isVar := cm.info.Defs[id].(*types.Var); isVar {
+							tname = types.TypeString(v.Type(), func(p *types.Package) string { return p.Name() })
+						}
+					}
+					return true
+				})
+				ws = append(ws, tname)
 			}
+			ws = dedupStrings(ws)
 			sort.Strings(ws)
 			if len(ws) > 0 {
 				mixed = "sets " + strings.Join(ws, ",")
